@@ -712,6 +712,8 @@ type c12Stats struct {
 	MsgCases       map[string]int `json:"message_decode"`
 	Samples        []any          `json:"samples"`
 	Direct         []c12Direct    `json:"direct"`
+	LargeArchives  int            `json:"large_archives"`
+	LargeBytes     int            `json:"large_archive_bytes"`
 	Interleaved    int            `json:"interleaved_pairs"`
 	ReaderErrors   int            `json:"reader_errors_at_boundaries"`
 	Files          map[string]any `json:"files"`
@@ -1002,10 +1004,16 @@ func init() {
 		}
 		for i := 0; i < nMsg; i++ {
 			a, err := c12Message(r)
-			if err != nil {
-				return err
+			if err == nil {
+				err = c12Bounds(a)
 			}
-			if err := c12Bounds(a); err != nil {
+			if le := (*c12LayoutError)(nil); errors.As(err, &le) {
+				if len(st.Direct) < 200 {
+					st.Direct = append(st.Direct, c12Direct{"encode-layout", "roundtrip", hex.EncodeToString(le.archive), le.detail, ""})
+				}
+				continue
+			}
+			if err != nil {
 				return err
 			}
 			account(a)
@@ -1013,11 +1021,20 @@ func init() {
 				return err
 			}
 		}
+		if err := c12LargeArchives(r, st); err != nil {
+			return err
+		}
 		// --- two archives open at once: Decode(A), Decode(B), only then drain A, then B: each iterator yields ITS archive
 		// --- a reader that fails (not with EOF) exactly between two sections: the failure is forwarded as an error item
 		var pool []*c12Archive
 		for i := 0; i < 12; i++ {
 			a, err := c12Random(r, 2+r.Intn(5), 60)
+			if le := (*c12LayoutError)(nil); errors.As(err, &le) {
+				if len(st.Direct) < 200 {
+					st.Direct = append(st.Direct, c12Direct{"encode-layout", "roundtrip", hex.EncodeToString(le.archive), le.detail, ""})
+				}
+				continue
+			}
 			if err != nil {
 				return err
 			}
